@@ -190,9 +190,9 @@ ADDENDA = {
             "messages in the middle of the tick that answers a DWR (sweep over the source lines of the tick)", ""),
     "C08": ("; 'Closed implies the transport has been released' is evaluated after every scheduler step; unusual DPAs (E bit, no Result-Code) after a local close", ""),
     "C09": ("; NAI user names, extra AVPs of an unknown vendor under base-protocol codes", ""),
-    "C10": ("; Grouped lists with a repeated mandatory member and the others absent; text around a DiameterURI", ""),
-    "C11": ("; bulk operations refused part-way (an element that is not an AVP)", ""),
-    "C12": ("; Decorate / SentOk now range over EVERY answer a route function may return (no Session-Id of its own, E flag already set)", ""),
+    "C10": ("; Grouped lists with a repeated mandatory member and the others absent; text around a DiameterURI; zero-length data is not replaced by a class default" + CONC, ""),
+    "C11": ("; bulk operations refused part-way (an element that is not an AVP); a bulk update that fails at a later key", ""),
+    "C12": ("; Decorate / SentOk now range over EVERY answer a route function may return (no Session-Id of its own, E flag already set)" + CONC, ""),
     "C13": ("; whole-stack stage (spec/Stack.tla: peer -> connection -> Worker.recv_handler -> Bromelia.main -> per-message threads -> "
             "Worker.set_outgoing_message / send_handler -> connection -> peer; model-checked with liveness, deviations D_NoSendLock and "
             "D_QueueBeforeRegister as vacuity self-test): a real node + the library's Worker loops + Bromelia.main under the scheduler with "
@@ -205,11 +205,14 @@ ADDENDA = {
             " Whole stack: Stack.tla with liveness; 60 / 1500 executions trace-validated."),
     "C15": ("; Ids.tla extended with constructions that fail after their draws (IdAbort; deviation ReleaseLast; invariant Registered); after every "
             "concurrent execution the source repeats every identifier handed out; block reads of the random source are honoured by the doubles", ""),
-    "C16": ("; spec/SessionConc.tla (concurrent generation: load / store / read of the counter, UseLock) model-checked, and two threads generating "
+    "C16": ("; Apalache: an inductive invariant of SessionConc (spec/Apa_SessionConc.tla) for arbitrary counter values and any number of generations; spec/SessionConc.tla (concurrent generation: load / store / read of the counter, UseLock) model-checked, and two threads generating "
             "Session-Ids at the same time with one preemption at every source line of the generator (forked children, the library's locks virtualised)", ""),
     "C17": (CONC + "; another vendor's AVP with code 268 next to the Result-Code (built and decoded)", ""),
     "C18": (CONC + " (both threads doing the first TBCD call of their process)", ""),
-    "C20": ("; a rejected bit operation changes nothing (word, serialisation, later accessor results)", ""),
+    "C20": ("; a rejected bit operation changes nothing (word, serialisation, later accessor results)" + CONC + "; timezone-aware datetimes (refused, or the instant's seconds)", ""),
+    "C19": (CONC + "; identities with capital letters; YAML lists with an entry that cannot be converted", ""),
+    "C04": ("; 'slow network' scenarios: pauses longer than every timeout of the node's threads between two segments", ""),
+    "C05": ("; sweep of an application thread submitting against the state machine thread's sending tick", ""),
 }
 for _p, (_t, _l) in ADDENDA.items():
     if _p in CHECKS:
